@@ -124,8 +124,12 @@ def access_probes():
     out.append(("acc:ref_id", HDR + "b = Battery(ref_id=4242)\ndb.Setting = b.Charge\nb.Lock = 1\nst = Stack(ref_id=77)\nst[2] = b.Ratio\ndb.Mode = st[3]\n"))
     for bm in ["Average", "Sum", "Minimum", "Maximum"]:
         out.append((f"acc:batch:{bm}", HDR + f"db.Setting = Batteries.Charge.{bm}\ndb.Mode = Batteries.{bm}.Ratio\ndb.On = Batteries[\"B 1\"].Charge.{bm}\ndb.Open = Batteries[\"B 1\"].{bm}.Power\nx = Batteries[HASH(\"Z\")].{bm}\ndb.Lock = x.Charge + x.Ratio\n"))
+    for bm in ["Average", "Sum", "Minimum", "Maximum"]:
+        out.append((f"acc:batch_slot:{bm}", HDR + f"db.Setting = ArcFurnaces.Import.Quantity.{bm}\ndb.Mode = ArcFurnaces.slot1.Occupied.{bm}\ndb.On = ArcFurnaces[\"left\"].slot0.Quantity.{bm}\ndb.Open = ArcFurnaces[\"left\"].Export.OccupantHash.{bm}\n"))
     out.append(("acc:batch_store", HDR + "GrowLights.On = d0.Setting\nGrowLights[\"x\"].On = d1.Setting\nh = HASH(\"y\")\nGrowLights[h].Lock = 1\nv = ActiveVents\nv.Mode = d2.Setting\n"))
     out.append(("acc:slots", HDR + "f = ArcFurnace(d0)\nif f.Import.Occupied:\n    f.Activate = 1\nt = f.slot1.OccupantHash\nf.Export.Quantity = t\ndb.Setting = ArcFurnaces.Import.Quantity.Sum\ndb.Mode = ArcFurnaces.slot1.Occupied.Maximum\nArcFurnaces.Export.Occupied = d1.Setting\n"))
+    out.append(("acc:ids", HDR + "h = WallHeater(d2)\ndb.Setting = h.PrefabHash\ndb.Mode = h.ReferenceId\ndb.On = h.NameHash\ndb.Open = WallHeaters.PrefabHash.Maximum\ndb.Lock = d0.PrefabHash + d1.ReferenceId\ndb.Setting = WallHeaters[\"a\"].ReferenceId.Minimum + WallHeaters.NameHash.Sum\n"))
+    out.append(("acc:slot_store_named", HDR + "f = ArcFurnace(d0)\nf.slot0.Quantity = d1.Setting\nf.Import.Occupied = 1\ndb.Setting = f.slot1.ReferenceId + f.Export.PrefabHash\n"))
     out.append(("acc:stack", HDR + "stack[100] = d0.Setting\nstack[101] = stack[100] + 1\ndb.Setting = stack[101] + stack[102]\ni = 103\nstack[i] = 5\ndb.Mode = stack[i]\n"))
     out.append(("acc:stack_dynamic", HDR + "for i in range(100, 103):\n    stack[i] = i * 2\nt = 0\nfor k in range(100, 103):\n    t += stack[k]\ndb.Setting = t\n"))
     out.append(("acc:foreign_stack", HDR + "s3 = Stack(d3)\ns3[0] = d0.Setting\ndb.Setting = s3[1] + Stack(d4)[2]\nStack(d5)[d1.Setting] = 7\n"))
